@@ -8,6 +8,15 @@ VERIF = os.path.dirname(os.path.dirname(os.path.abspath(__file__)))
 
 # property -> (category, technique, text, note, design_ref)
 CHECKS = {
+    'C16': ('exploration', 'recorded-matvec operator wrapper + dense eigh/eig/expm ground truth per solver run; N_cache sweeps and '
+            'operator-reuse histories',
+            'Every Krylov run (Lanczos ground state/evolution, Arnoldi, ArnoldiEvolution, GMRES, gram_schmidt, Flat operators, '
+            'Shift/Sum/Orthogonal wrappers) is judged against the dense sector block: normalisation, Rayleigh quotient, lower '
+            'bound, exactness at full Krylov dimension, independence of N_cache (forcing the basis-rebuild path), E_shift and '
+            'orthogonal projection semantics including reuse of one operator object for several runs, expm action, Ritz '
+            'residuals and ordering, GMRES residual.',
+            'operator norms are kept in the regime where the solvers\' absolute breakdown cutoff (100 eps) works; nearly '
+            'dependent Gram-Schmidt input is not judged', 'DESIGN.md §C16'),
     'C05': ('exploration', 'residual and structure monitors on every factorization call (dense reconstruction, isometry/unitarity, '
             'spectra against numpy, Moore-Penrose identities, charge/leg bookkeeping, storage invariants of the factors)',
             'Random rank-2 block-sparse inputs (pipes from combined legs, non-blocked legs, one-sided sectors, stored-zero and '
